@@ -226,3 +226,16 @@ package federation
 //@   calls rpc.NewConn#1: requires $0 == id && pid == id && $3 == tp
 //@   ghost tp rpc.TokenProvider = nil
 //@   calls saltedTokenProvider#1: set tp = $r
+
+// UserList: the whole request is handed to the login cluster only when a login
+// cluster is configured, it is ANOTHER cluster and federation is not bypassed;
+// in every other case (this cluster is the login cluster included) the request
+// goes through the federated fan-out like the other list methods.
+//@ func Conn.batchUpdateUsers trusted
+//@   modifies all
+//@ iface backend.UserList
+//@   modifies nothing
+//@ func Conn.UserList property C20
+//@   only calls: Conn.chooseBackend backend.UserList Conn.batchUpdateUsers Conn.generated_UserList
+//@   calls Conn.chooseBackend#1: requires $0 == conn.cluster.Login.LoginCluster && $0 != "" && $0 != conn.cluster.ClusterID && !options.BypassFederation
+//@   calls Conn.generated_UserList#1: requires $0 == ctx && $1 == options
